@@ -104,6 +104,8 @@ def make_pipeline(ctx, prop, kind, mtype, keys, num_anneals, sched, init, in_ord
                     if tempr is not None: kw['temperature_range'] = tuple(tempr)
                 else:
                     kw['schedule'] = list(sc)
+                    if len(sc) >= 2:
+                        kw['anneal_duration'] = 1      # documented as ignored when an explicit schedule is given: every entry must still be used
                 try:
                     if twice:
                         # history: anneal, edit the same object in place (swap two coefficients, move the offset), anneal again;
